@@ -450,6 +450,7 @@ fn oracle_dec(v: &metric::Value, dec: &Decoded, op: &str, out: &mut Out) {
 
 /// Execute one stateless op (def / inst / dec) on the implementation.
 fn exec_value(op: &str, out: &mut Out) -> String {
+    let _crumb = crate::common::crumb::guard(op);
     let w: Vec<&str> = op.split(' ').collect();
     let mut c = Cur { t: &w, i: 2 };
     match w[1] {
